@@ -350,70 +350,116 @@ def no_realloc(ctx, taint, wiping_adts):
                 rep.violation('R-C20-3', key, 'secret data (%s) is collected through `collect::<%s>()`: the vector cannot be pre-sized (size hint 0), grows past its initial '
                               'capacity of 4 elements when more than 4 are produced (extension degree 5 or 6) and the outgrown block is freed without being wiped' % (', '.join(sorted(src)), tgt[:60]),
                               ctx.where(b, bb))
-        # (b) push-filled vectors
+        # (b) push-filled vectors: every constructor definition of a vector local, with the fills that follow it
         for l in range(b.argc + 1, len(b.locals)):
             ty = b.local_ty(l)
             if not (ty.startswith('std::vec::Vec<') or ty.startswith('zeroize::Zeroizing<std::vec::Vec<')):
                 continue
-            wd = ix.whole_defs(l)
-            if len(wd) != 1 or wd[0][2] != 'call':
+            wd_all = ix.whole_defs(l)
+            fills_all = [e for e in ix.events_on(('L', l)) if e['decl'] in ('std::vec::Vec::<T, A>::push', 'std::iter::Extend::extend', 'std::vec::Vec::<T, A>::extend_from_slice', 'std::vec::Vec::<T, A>::append')]
+            if not fills_all:
                 continue
-            ctor_bb = wd[0][0]
-            ctor = ctx.eng.call_result(b, ctor_bb)
-            base = ctor
-            while base.tag == 'mut':
-                base = base[1]
-            if not (base.tag == 'call' and base[1].split('::')[-1] in ('new', 'with_capacity') and 'Vec' in base[1]):
-                continue
-            pushes = [e for e in ix.events_on(('L', l)) if e['decl'] in ('std::vec::Vec::<T, A>::push', 'std::iter::Extend::extend', 'std::vec::Vec::<T, A>::extend_from_slice', 'std::vec::Vec::<T, A>::append')]
-            if not pushes:
-                continue
-            src = set()
-            for e in pushes:
-                src |= taint.sources(ctx.eng.event_term(b, e))
-            if not src:
-                continue
-            n += 1
-            key = 'R-C20-3/%s/%s/%s' % (b.path, ty[:40], '+'.join(sorted({x.split('-')[0] for x in src})))
-            cap = base[2][0] if base[1].endswith('with_capacity') and base[2] else None
-            if cap is None:
-                rep.violation('R-C20-3', key, 'secret data (%s) is pushed into a vector created with Vec::new(): it reallocates as it grows and the outgrown blocks are freed un-wiped' % ', '.join(sorted(src)), ctx.where(b, ctor_bb))
-                continue
-            ccap = canon(cap)
-            bounded = True
-            why = []
-            for e in pushes:
-                lps = ctx.enclosing_loops(b, e['bb'])
-                inner = [lp for lp in lps if ctor_bb not in lp.blocks]
-                if not inner:
-                    why.append('%s outside loops' % e['decl'].split('::')[-1])
+            for d in wd_all:
+                if d[2] != 'call':
                     continue
-                for lp in inner:
-                    itc = canon(lp.iter_term) if lp.iter_term is not None else '?'
-                    why.append(itc[:60])
-            # the capacity term must mention every bound of the filling loops, or be a constant covering constant-many pushes
-            if cap.tag == 'const':
-                bounded = all(not [lp for lp in ctx.enclosing_loops(b, e['bb']) if ctor_bb not in lp.blocks] for e in pushes) and len(pushes) <= cap[1] or True
-                rep.ok('R-C20-3', key, 'secret vector created with constant capacity %s (%d fill sites)' % (ccap, len(pushes)), ctx.where(b, ctor_bb), nontrivial=False)
-                continue
-            loop_bounds = []
-            for e in pushes:
-                for lp in ctx.enclosing_loops(b, e['bb']):
-                    if ctor_bb in lp.blocks or lp.iter_term is None:
-                        continue
-                    loop_bounds.append(lp.iter_term)
-            ok = True
-            for itb in loop_bounds:
-                # a range(0, N) / take(N) / collection whose length is part of the capacity expression
-                bits = [canon(x) for x in walk(itb) if x.tag in ('field', 'param') or (x.tag == 'call' and x[1].split('::')[-1] == 'len')]
-                # an explicit bound: take(N) or 0..N with N the capacity itself
-                explicit = [canon(x.args[-1]) for x in walk(itb) if x.tag == 'adapt' and x[1] == 'take'] + \
-                           [canon(x[2]) for x in walk(itb) if x.tag == 'range' and x[1].tag == 'const' and x[1][1] == 0]
-                if not any(bt in ccap for bt in bits if len(bt) > 2) and ccap not in explicit:
-                    ok = False
-            rep.check(ok, 'R-C20-3', key, 'secret vector is created with_capacity(%s), which covers its filling loops' % ccap[:80],
-                      'secret vector is created with_capacity(%s) but filled by loops over %s: it may reallocate' % (ccap[:80], [canon(x)[:60] for x in loop_bounds]), ctx.where(b, ctor_bb))
+                ctor_bb = d[0]
+                ctor = ctx.eng.call_result(b, ctor_bb)
+                base = ctor
+                while base.tag == 'mut':
+                    base = base[1]
+                if not (base.tag == 'call' and base[1].split('::')[-1] in ('new', 'with_capacity') and 'Vec' in base[1]):
+                    continue
+                others = [d2[0] for d2 in wd_all if d2 is not d]
+                pushes = [e for e in fills_all if (e['bb'] == ctor_bb or cfg.reaches(ctor_bb, e['bb'])) and not any(cfg.reaches(o, e['bb']) and not cfg.reaches(o, ctor_bb) for o in others)]
+                if not pushes:
+                    continue
+                src = set()
+                for e in pushes:
+                    src |= taint.sources(ctx.eng.event_term(b, e))
+                if not src:
+                    continue
+                n += 1
+                key = 'R-C20-3/%s/%s/%s' % (b.path, ty[:40], '+'.join(sorted({x.split('-')[0] for x in src})))
+                cap = base[2][0] if base[1].endswith('with_capacity') and base[2] else None
+                if cap is None:
+                    rep.violation('R-C20-3', key, 'secret data (%s) is pushed into a vector created with Vec::new(): it reallocates as it grows and the outgrown blocks are freed un-wiped' % ', '.join(sorted(src)), ctx.where(b, ctor_bb))
+                    continue
+                ccap = canon(cap)
+                if cap.tag == 'const':
+                    rep.ok('R-C20-3', key, 'secret vector created with constant capacity %s (%d fill sites)' % (ccap, len(pushes)), ctx.where(b, ctor_bb), nontrivial=False)
+                    continue
+                loop_bounds = []
+                per_push = []
+                for e in pushes:
+                    mine = []
+                    for lp in ctx.enclosing_loops(b, e['bb']):
+                        if ctor_bb in lp.blocks or lp.iter_term is None:
+                            continue
+                        loop_bounds.append(lp.iter_term)
+                        mine.append(lp.iter_term)
+                    per_push.append(mine)
+                ok = True
+                for itb in loop_bounds:
+                    # a range(0, N) / take(N) / collection whose length is part of the capacity expression
+                    bits = [canon(x) for x in walk(itb) if x.tag in ('field', 'param') or (x.tag == 'call' and x[1].split('::')[-1] == 'len')]
+                    # an explicit bound: take(N) or 0..N with N the capacity itself
+                    explicit = [canon(x.args[-1]) for x in walk(itb) if x.tag == 'adapt' and x[1] == 'take'] + \
+                               [canon(x[2]) for x in walk(itb) if x.tag == 'range' and x[1].tag == 'const' and x[1][1] == 0]
+                    if not any(bt in ccap for bt in bits if len(bt) > 2) and ccap not in explicit:
+                        ok = False
+                if not ok:
+                    # product form: capacity = f1 * f2 * .., every fill site sits in a loop nest whose trip counts are bounded by
+                    # distinct factors (lengths related by a constructor invariant count as equal)
+                    ok = all(nest_within(ctx, b, nest, cap) for nest in per_push) and all(per_push)
+                rep.check(ok, 'R-C20-3', key, 'secret vector is created with_capacity(%s), which covers its filling loops' % ccap[:80],
+                          'secret vector is created with_capacity(%s) but filled by loops over %s: it may reallocate' % (ccap[:80], [canon(x)[:60] for x in loop_bounds]), ctx.where(b, ctor_bb))
     rep.floor('R-C20-3', 'secret vector construction sites', n, 5)
+
+
+def cap_factors(t):
+    """factors of a capacity expression written as a (checked) product"""
+    while t.tag in ('mut', 'cast'):
+        t = t[1] if t.tag == 'mut' else t[2]
+    if t.tag == 'call' and t[1].split('::')[-1] in ('checked_mul', 'saturating_mul', 'wrapping_mul') and len(t[2]) == 2:
+        return cap_factors(t[2][0]) + cap_factors(t[2][1])
+    if t.tag == 'binop' and t[1] == 'Mul':
+        return cap_factors(t[2]) + cap_factors(t[3])
+    return [t]
+
+
+def nest_within(ctx, body, nest, cap):
+    """each loop of the nest has a trip count bounded by its own factor of the capacity"""
+    from . import msm_pairs
+    facs = [canon(f) for f in cap_factors(cap)]
+    inv = []
+    try:
+        inv = msm_pairs.invariant_pairs(ctx)
+    except Exception:
+        inv = []
+    eq = {}
+    for a, c in inv:
+        if a and c:
+            eq.setdefault(a, set()).add(c)
+            eq.setdefault(c, set()).add(a)
+    free = list(facs)
+    for it in nest:
+        try:
+            atoms = msm_pairs.lenform(ctx, it)
+        except Exception:
+            atoms = frozenset()
+        cands = set()
+        for a in atoms:
+            cands.add(a[1:] if a.startswith('=') else a)
+            # len(X.f) with |f| == |g| by a constructor invariant of X's type
+            if a.startswith('len(') and '.' in a:
+                obj, fld = a[4:-1].rsplit('.', 1)
+                for g in eq.get(fld, ()):
+                    cands.add('len(%s.%s)' % (obj, g))
+        hit = next((f for f in free if f in cands), None)
+        if hit is None:
+            return False
+        free.remove(hit)
+    return True
 
 
 _PO = {}
